@@ -238,6 +238,28 @@ func constInt(v ssa.Value) (int64, bool) {
 // type assertion of (same number, different static type).
 func aliases(v ssa.Value) []ssa.Value {
 	out := []ssa.Value{v}
+	// go/ssa has no CSE: `i+1 < len(s) && s[i+1] == c` computes i+1 twice.
+	// Another pure arithmetic instruction with the same operator and the
+	// same operand values denotes the same number.
+	if bo, ok := v.(*ssa.BinOp); ok && isIntType(bo.Type()) {
+		if refs := bo.X.Referrers(); refs != nil {
+			for _, ref := range *refs {
+				tw, ok := ref.(*ssa.BinOp)
+				if !ok || tw == bo || tw.Op != bo.Op || tw.X != bo.X || tw.Parent() != bo.Parent() {
+					continue
+				}
+				same := tw.Y == bo.Y
+				if !same {
+					c1, ok1 := constInt(tw.Y)
+					c2, ok2 := constInt(bo.Y)
+					same = ok1 && ok2 && c1 == c2
+				}
+				if same {
+					out = append(out, tw)
+				}
+			}
+		}
+	}
 	cur := v
 	for i := 0; i < 6; i++ {
 		switch x := cur.(type) {
